@@ -382,6 +382,104 @@ func vC10Scenario(name string, seed uint64) string {
 			}
 		}
 		return w.aftermath(nil, took)
+	case "handler-still-running-at-stop":
+		// Stop does not wait for the application's handlers: a request of a peer is inside its handler (for as long as it
+		// likes) when Stop lands; Stop returns within its bound, Serve returns, the session is closed
+		w := vC10Setup(r)
+		w.impl.mu.Lock()
+		w.impl.hold = true
+		w.impl.mu.Unlock()
+		c, err := vRawDial(w.addr, w.keys[0], w.skey.Pub)
+		if err != nil {
+			return "setup"
+		}
+		vWaitUntil(2*time.Second, func() bool { return w.s.OpenConnections() == 1 })
+		_ = c.WriteMessage(websocket.BinaryMessage, vSizedRequest(100, "00000000-0000-4000-8000-000000000c10"))
+		if !vWaitUntil(2*time.Second, func() bool { return len(w.impl.peek()) >= 1 }) {
+			return "setup"
+		}
+		start := time.Now()
+		if !vStop(w.s, 6*time.Second) {
+			return "stop-hangs/" + strings.Join(vParked(), ",")
+		}
+		took := time.Since(start)
+		// Stop has returned while the handler was still running; the handler may return now (its goroutine is the
+		// application's business until then)
+		w.impl.mu.Lock()
+		w.impl.hold = false
+		var toks []string
+		for k := range w.impl.gate {
+			toks = append(toks, k)
+		}
+		w.impl.mu.Unlock()
+		for _, k := range toks {
+			w.impl.release(k)
+		}
+		time.Sleep(100 * time.Millisecond)
+		return w.aftermath([]*websocket.Conn{c}, took)
+	case "handshake-completes-while-stop-waits":
+		// Stop is waiting for a session whose teardown takes a while (the server is in the middle of a large write to a peer
+		// which does not read); a handshake which had passed the first checks before Stop began completes meanwhile. It is
+		// not admitted, and Stop returns when the slow session has gone - it does not wait for the newcomer
+		w := vC10Setup(r, WithHTTPReadTimeout(5*time.Second, time.Second))
+		a, err := vRawDial(w.addr, w.keys[0], w.skey.Pub)
+		if err != nil {
+			return "setup"
+		}
+		defer a.Close() // (also keeps the connection reachable: an unreferenced one is closed by its finalizer at the next collection)
+		vWaitUntil(2*time.Second, func() bool { return w.s.OpenConnections() == 1 })
+		bigDone := make(chan struct{})
+		go func() {
+			defer close(bigDone)
+			ctx, cn := context.WithTimeout(context.Background(), 2*time.Second)
+			defer cn()
+			_ = w.s.Invoke(peer.NewCallContext(ctx, w.keys[0].Static()), "Echo", vAppMsg("big", make([]byte, 9<<20), ""), &message.Response{})
+		}()
+		time.Sleep(150 * time.Millisecond) // the write pump is in the socket write now
+		verifrt.Start(nil)
+		const at = "Server.wshandler#RLock#2"
+		verifrt.Hold(at, 1)
+		bch := make(chan *websocket.Conn, 1)
+		go func() {
+			c, err := vRawDial(w.addr, w.keys[1], w.skey.Pub)
+			if err != nil {
+				c = nil
+			}
+			bch <- c
+		}()
+		held := vWaitUntil(3*time.Second, func() bool { return verifrt.Held(at) >= 1 })
+		stopped := make(chan bool, 1)
+		var took time.Duration
+		go func() {
+			start := time.Now()
+			ok := vStop(w.s, 8*time.Second)
+			took = time.Since(start)
+			stopped <- ok
+		}()
+		time.Sleep(200 * time.Millisecond)
+		verifrt.Release(at)
+		ok := <-stopped
+		verifrt.Stop()
+		if !held {
+			return "gate-script-infeasible/handshake-not-held"
+		}
+		if !ok {
+			return "stop-hangs/" + strings.Join(vParked(), ",")
+		}
+		var b *websocket.Conn
+		select {
+		case b = <-bch:
+		case <-time.After(2 * time.Second):
+		}
+		if b != nil && vProbeWait(b, 700*time.Millisecond) == "served" {
+			return "session-admitted-after-stop"
+		}
+		select { // the harness's own call has ended (its goroutine is not the server's)
+		case <-bigDone:
+		case <-time.After(4 * time.Second):
+			return "call-hangs-across-stop"
+		}
+		return w.aftermath(nil, took)
 	case "write-timed-out-before-stop":
 		// a peer which stops reading: the server's write times out and its write pump leaves; the
 		// session must be gone completely (socket, read pump) when Stop has returned
@@ -527,7 +625,7 @@ func vC10Scenario(name string, seed uint64) string {
 	return "unknown-scenario"
 }
 
-var vC10Names = []string{"open-sessions", "idle-longer-than-write-timeout", "calls-both-directions", "handshakes-in-progress", "concurrent-admin", "write-timed-out-before-stop", "simultaneous-stops", "rejected-handshakes-then-stop", "peers-still-connecting-at-stop"}
+var vC10Names = []string{"open-sessions", "idle-longer-than-write-timeout", "calls-both-directions", "handshakes-in-progress", "concurrent-admin", "write-timed-out-before-stop", "simultaneous-stops", "rejected-handshakes-then-stop", "peers-still-connecting-at-stop", "handler-still-running-at-stop", "handshake-completes-while-stop-waits"}
 
 func TestVerifC10Child(t *testing.T) {
 	spec := vChildSpec()
